@@ -90,6 +90,14 @@ E10 == <<BOf(45400), -9>>
 MixOk(tb, ta, th, ppb) == \/ DClose(tb, DMul(ta, th), ppb)
                           \/ (DLe(tb, E10) /\ DLe(DMul(ta, th), E10))
 
+\* several clouds / hazes (slabs) in one model: every slab keeps ITS OWN range whatever else lives in
+\* the model and in whatever order they were added (design model MC_CloudsSlabs), hence the transmittance
+\* with all of them is the product of the transmittances with each of them alone (up to the licence).
+\* al[j][k][w]: observation with only slab j, tb: decimal with all of them
+RECURSIVE DProdTo(_, _, _, _)
+DProdTo(al, k, w, j) == IF j = 0 THEN DInt(1) ELSE DMul(DProdTo(al, k, w, j - 1), DOf(al[j][k][w]))
+SlabsOk(tb, al, k, w, ppb) == MixOk(tb, DProdTo(al, k, w, Len(al)), DInt(1), ppb)
+
 \* --------------------------------------------- transit depth with a deck
 \* documented integral (C01), numerator in units of Rs^2:  R^2 + sum_k 2 (R + z_k) (1 - tr_k) dz_k
 RECURSIVE DepthSum(_, _, _, _, _)
